@@ -87,6 +87,42 @@ func checkC14(c *Ctx) {
 	c.rule = "seeds: the 114 CCTV vectors, the frozen corpus (small files), valid key strings / key files / armor; each seed and grammar-aware mutations of it (bit flips, truncations, insertions, special bytes, line splices and drops, digit edits, appended garbage; quick 12 / thorough 150 per seed) go through every entry point on BOTH sides: age.Decrypt (binary and armored; X25519 and passphrase identities with a small work-factor limit), format.Parse, armor.Reader, bech32 and all Parse* functions, ParseIdentities / ParseRecipients, the plugin client (scripted plugin), and on the implementation only agessh.ParseRecipient / ParseIdentity and the four Unwraps on random stanzas. The Go side runs under recover and an 8 s watchdog: a panic or a timeout is a violation with the input as replay; outcome classes must equal the model's. distinct_nontrivial = distinct mutated inputs."
 	vectors := loadCCTV()
 	perSeed := c.vol(12, 150)
+	// (a0) armored files to 1..8 recipients (so that the payload nonce falls at every position relative to the
+	// 48-byte armor lines), each armor line damaged in turn: every failure is an *armor.Error, wherever it surfaces
+	for nr := 1; nr <= 8; nr++ {
+		sc := &scenario{plain: c.rng.bytes(60), tape: c.rng.bytes(600), armor: true}
+		for k := 0; k < nr; k++ {
+			sc.parties = append(sc.parties, c.freshParty("x25519"))
+		}
+		file, err, _, _ := encryptImpl(sc)
+		if err != nil {
+			panic(err)
+		}
+		lines := bytes.SplitAfter(file, []byte("\n"))
+		for li := 1; li < len(lines)-1; li++ {
+			for _, dmg := range []string{"!", "trunc"} {
+				var in []byte
+				for lj, l := range lines {
+					if lj == li {
+						if dmg == "!" {
+							l = append([]byte("!"), l[1:]...)
+						} else {
+							break
+						}
+					}
+					in = append(in, l...)
+				}
+				meta := map[string]interface{}{"entry": "age.Decrypt over armor.NewReader", "recipients": nr, "damaged_line": li, "damage": dmg}
+				var ferr error
+				what := guarded(func() { ferr = finalError(in, []age.Identity{sc.parties[0].id}) })
+				c.Oracle("no-panic-no-hang", what == "", "decrypt-panic-or-hang", meta, what)
+				var ae *armor.Error
+				c.Oracle("armor-failures-carry-the-armor-error-type", ferr != nil && errors.As(ferr, &ae), "armor-untyped-error", meta, fmt.Sprintf("damaged armor: the failure reached the caller without *armor.Error: %v", ferr))
+				c.count("armor-line-damage")
+				c.note(fmt.Sprintf("armdmg:%d:%d:%s", nr, li, dmg), true)
+			}
+		}
+	}
 	// (a) whole files through Decrypt
 	for _, v := range vectors {
 		// a small work-factor limit keeps hostile work factors cheap on both sides
